@@ -79,10 +79,10 @@ World ==
   /\ frames' = WithStarts(e.frames)
   /\ delivered' = 0 /\ consumed' = 0 /\ events' = <<>> /\ asked' = TRUE /\ dead' = FALSE
   /\ cur' = [run |-> e.run, sess |-> e.sess, cls |-> e.cls, src |-> e.src, segs |-> e.segs, base |-> e.base,
-             ref |-> e.ref, refd |-> e.refd, referr |-> e.referr]      \* (the frames live in `frames`)
+             ref |-> e.ref, refd |-> e.refd, reffin |-> e.reffin, referr |-> e.referr]      \* (the frames live in `frames`)
   /\ ndisp' = 0
   /\ UNCHANGED <<first, okSess>>
-  /\ stuck' = IF e.refd # e.total THEN stuck \cup {e.sess} ELSE stuck
+  /\ stuck' = IF ~e.reffin THEN stuck \cup {e.sess} ELSE stuck
   /\ IF TotalOf(WithStarts(e.frames)) # e.total
        THEN Report("DRIFT", e, "bookkeeping", "frames", "frame lengths do not add up to the stream length") /\ bad' = TRUE
      ELSE IF ~e.refstable \/ e.reftimeout
@@ -131,14 +131,17 @@ ClassAt(d) == LET i == InsideFrame(d) IN
               IF i # 0 /\ Atomic(frames[i]) THEN "split-" \o frames[i].k
               ELSE IF i # 0 THEN "inside-" \o frames[i].k ELSE "boundary"
 
-(* The outcome of a run is whether the stream was consumed to the end and the final observation.  Outcomes of
-   different segmentations of the same bytes must be equal: each run is compared with the unsegmented run (which
-   may itself be the one that was dropped) and with the first run of the same session in the log. *)
+(* The outcome of a run is whether the stream was consumed to the end and, if so, the final observation (what a
+   dropped connection had written back by then depends on the outbox pump's timing and is not compared).
+   Outcomes of different deliveries of the same bytes must be equal, whichever of them is "the reference": each
+   run is compared with the unsegmented run (which may itself be the one that was dropped) and with the first
+   unreported run of the same session in the log.  Only when every delivery of a session is dropped alike is
+   nothing judged (drift "unconsumed"). *)
 EndEv ==
   LET e == Log[l]
-      done == e.d = Total
-      refdone == cur.refd = Total
-      outc == [done |-> done, obs |-> e.obs]
+      done == e.fin            \* consumed to the end: the handler processed everything up to the last byte
+      refdone == cur.reffin
+      outc == [done |-> done, obs |-> IF done THEN e.obs ELSE <<>>]
       hasFirst == cur.sess \in DOMAIN first
   IN
   /\ e.op = "end"
@@ -160,7 +163,7 @@ EndEv ==
              ELSE IF done /\ ~refdone
                THEN Report("VIOL", e, "whole-abandoned", ClassAt(cur.refd),
                            [wholeStoppedAt |-> cur.refd, total |-> Total, wholeErr |-> cur.referr]) /\ bad' = TRUE
-             ELSE IF e.obs # cur.ref
+             ELSE IF done /\ e.obs # cur.ref
                THEN Report("VIOL", e, "final", "end", [reference |-> cur.ref, refd |-> cur.refd]) /\ bad' = TRUE
              ELSE IF hasFirst /\ first[cur.sess] # outc
                THEN Report("VIOL", e, "differs", "first-run", [firstRun |-> first[cur.sess]]) /\ bad' = TRUE
